@@ -169,11 +169,28 @@ impl<NonceSize: Unsigned, Rounds, IsX> ChaChaAny<NonceSize, Rounds, IsX> {
     }
 }
 
-impl<NonceSize, Rounds: Unsigned, IsX> ChaChaAny<NonceSize, Rounds, IsX> {
+impl<NonceSize: Unsigned, Rounds: Unsigned, IsX> ChaChaAny<NonceSize, Rounds, IsX> {
     #[inline]
     fn try_apply_keystream(&mut self, data: &mut [u8]) -> Result<(), ()> {
-        self.state
-            .try_apply_keystream::<WideEnabled>(data, Rounds::U32)
+        if NonceSize::U32 != 12 {
+            return self
+                .state
+                .try_apply_keystream::<WideEnabled>(data, Rounds::U32);
+        }
+        // The block functions always step a 64-bit counter. With the 32-bit counter the word
+        // above it is the first nonce word, so producing the last block of the stream carries
+        // into the nonce; undo that, or a later seek() would continue with a different nonce.
+        let nonce0 = self.state.state.get_stream_param(0) >> 32;
+        let r = self
+            .state
+            .try_apply_keystream::<WideEnabled>(data, Rounds::U32);
+        let p = self.state.state.get_stream_param(0);
+        if p >> 32 != nonce0 {
+            self.state
+                .state
+                .set_stream_param(0, (nonce0 << 32) | (p & 0xffff_ffff));
+        }
+        r
     }
 }
 
@@ -233,7 +250,7 @@ impl<NonceSize: Unsigned, Rounds, IsX> StreamCipherSeek for ChaChaAny<NonceSize,
     }
 }
 
-impl<NonceSize, Rounds: Unsigned, IsX> StreamCipher for ChaChaAny<NonceSize, Rounds, IsX> {
+impl<NonceSize: Unsigned, Rounds: Unsigned, IsX> StreamCipher for ChaChaAny<NonceSize, Rounds, IsX> {
     #[inline]
     fn try_apply_keystream(&mut self, data: &mut [u8]) -> Result<(), LoopError> {
         Self::try_apply_keystream(self, data).map_err(|_| LoopError)
